@@ -159,12 +159,21 @@ def t_pixels_exhaustive(ctx):
 
 
 def t_words_exhaustive(ctx):
+    import operator as _operator
+    import struct as _struct
     from pyctr.type.tmd import TitleVersion, ContentTypeFlags
     for w in range(65536):
         ctx.evaluations += 1
         v = TitleVersion.from_int(w)
         if int(v) != w or not (0 <= v.major < 64 and 0 <= v.minor < 64 and 0 <= v.micro < 16):
             check(ctx, 'titleversion', dict(t='tv', w=w), False, w, int(v), 'TitleVersion word round trip')
+        # "the word of a version" has more than one spelling: int(), the index protocol (what struct.pack and hex() use)
+        try:
+            spelled = (_operator.index(v), int.from_bytes(_struct.pack('>H', v), 'big'))
+        except Exception as ex:
+            spelled = (pyenv.errname(ex),)
+        if any(x != w for x in spelled):
+            check(ctx, 'titleversion', dict(t='tv', w=w, via='index'), False, w, spelled, 'TitleVersion word round trip through operator.index / struct.pack')
         if TitleVersion.from_int(int(v)) != v:
             check(ctx, 'titleversion', dict(t='tv', w=w), False, tuple(v), tuple(TitleVersion.from_int(int(v))), 'TitleVersion triple round trip')
         f = ContentTypeFlags.from_int(w)
